@@ -13,6 +13,7 @@ use super::sta_rs;
 use vstd::bytes::*;
 use vstd::arithmetic::power::*;
 use vstd::arithmetic::div_mod::*;
+use vstd::string::*;
 
 // ---------------------------------------------------------------- integers <-> bytes
 pub open spec fn pow256(n: nat) -> int
@@ -598,13 +599,232 @@ pub proof fn C16_transcript(s: adss::Share, shs: Seq<Share>, t0: u32, M0: Seq<u8
     }
 }
 
+// ---------------------------------------------------------------- C01: end to end
+/// what `Message::generate` guarantees about a report (its Ok-postcondition, as a predicate)
+pub open spec fn is_report_of(r: sta_rs::Message, m: Seq<u8>, e: Seq<u8>, t: u32, aux: Option<Seq<u8>>, rnd: Seq<u8>) -> bool {
+    r.tag@ == sta_rs::rv(rnd, 2)
+    && r.ciphertext.bytes@ == enc_out(
+        sta_rs::ct_state(sta_rs::ske(sta_rs::rv(rnd, 0), e), "star_encrypt".spec_bytes()), sta_rs::payload(m, aux))
+    && adss::is_share_of(r.share.0, t, sta_rs::rv(rnd, 0), sta_rs::rv(rnd, 1), s_new(b"adss"@))
+}
+
+/// encoding a share and decoding it again preserves everything recovery looks at
+pub proof fn C01_share_roundtrip(sh: adss::Share, sh2: adss::Share)
+    requires
+        sh.C@.len() <= u32::MAX, sh.D@.len() <= u32::MAX, 24 * (sh.S.y@.len() + 1) <= u32::MAX,
+        ({ let b = adss::layout_share(sh.A.threshold, enc_ss(sh.S.x, sh.S.y@), sh.C@, sh.D@, sh.J@);
+           adss::parse_share(b) matches Some(p)
+           && sh2.A.threshold as int == p.0 && ss_match(sh2.S, p.1) && sh2.C@ == p.2 && sh2.D@ == p.3 && sh2.J@ == p.4 }),
+    ensures
+        sh2.A.threshold == sh.A.threshold, sh2.C@ == sh.C@, sh2.D@ == sh.D@, sh2.J@ == sh.J@,
+        fv(sh2.S.x) == fv(sh.S.x), sh2.S.y@.len() == sh.S.y@.len(),
+        forall|j: int| 0 <= j < sh.S.y@.len() ==> fv(#[trigger] sh2.S.y@[j]) == fv(sh.S.y@[j]),
+{
+    let ss = enc_ss(sh.S.x, sh.S.y@);
+    C08_ss_roundtrip(sh.S.x, sh.S.y@);
+    C08_share_roundtrip(sh.A.threshold, ss, sh.C@, sh.D@, sh.J@);
+    assert forall|j: int| 0 <= j < sh.S.y@.len() implies fv(#[trigger] sh2.S.y@[j]) == fv(sh.S.y@[j]) by {
+        assert(fv(sh2.S.y@[(j + 1) - 1]) == le_int(chunk(ss, j + 1)));
+    }
+}
+
+/// C01: for every measurement m, epoch e, threshold t >= 1, client randomness rnd and per-client
+/// associated data, any collection of reports for (m, e, t, rnd) whose shares contain t distinct
+/// points (any order, duplicates, surplus) recovers r0 = rv(rnd, 0); the key re-derived from the
+/// recovered message and the epoch decrypts EVERY report to exactly frame(m) followed by
+/// frame(aux) when aux was supplied (possibly empty) and by nothing when it was not.
+pub proof fn C01_recover(t: u32, m: Seq<u8>, e: Seq<u8>, rnd: Seq<u8>, reps: Seq<sta_rs::Message>, auxs: Seq<Option<Seq<u8>>>)
+    requires
+        t >= 1, reps.len() >= 1, auxs.len() == reps.len(), m.len() <= u32::MAX,
+        forall|k: int| 0 <= k < auxs.len() ==> (#[trigger] auxs[k] matches Some(a) ==> a.len() <= u32::MAX),
+        forall|k: int| 0 <= k < reps.len() ==> is_report_of(#[trigger] reps[k], m, e, t, auxs[k], rnd),
+        dedup(adss::s_parts(reps.map_values(|r: sta_rs::Message| r.share.0))).len() >= t,
+    ensures
+        ({
+            let shs = reps.map_values(|r: sta_rs::Message| r.share.0);
+            let key = sta_rs::ske(sta_rs::rv(rnd, 0), e);
+            adss::rec_spec(shs[0], adss::s_parts(shs)) == Some((sta_rs::rv(rnd, 0), sta_rs::rv(rnd, 1)))
+            && forall|k: int| 0 <= k < reps.len() ==> ({
+                let pt = dec_out(sta_rs::ct_state(key, "star_encrypt".spec_bytes()), (#[trigger] reps[k]).ciphertext.bytes@);
+                let rest = pt.subrange(4 + m.len() as int, pt.len() as int);
+                parse_frame(pt) == Some(m)
+                && match auxs[k] { Some(a) => parse_frame(rest) == Some(a), None => rest.len() == 0 }
+            })
+        }),
+{
+    broadcast use group_strobe;
+    let shs = reps.map_values(|r: sta_rs::Message| r.share.0);
+    assert forall|i: int| 0 <= i < shs.len() implies
+        adss::is_share_of(#[trigger] shs[i], t, sta_rs::rv(rnd, 0), sta_rs::rv(rnd, 1), s_new(b"adss"@)) by {
+        assert(is_report_of(reps[i], m, e, t, auxs[i], rnd));
+    }
+    C16_recover(t, sta_rs::rv(rnd, 0), sta_rs::rv(rnd, 1), shs);
+    let key = sta_rs::ske(sta_rs::rv(rnd, 0), e);
+    assert forall|k: int| 0 <= k < reps.len() implies ({
+        let pt = dec_out(sta_rs::ct_state(key, "star_encrypt".spec_bytes()), (#[trigger] reps[k]).ciphertext.bytes@);
+        let rest = pt.subrange(4 + m.len() as int, pt.len() as int);
+        parse_frame(pt) == Some(m)
+        && match auxs[k] { Some(a) => parse_frame(rest) == Some(a), None => rest.len() == 0 }
+    }) by {
+        assert(is_report_of(reps[k], m, e, t, auxs[k], rnd));
+        let pl = sta_rs::payload(m, auxs[k]);
+        let pt = dec_out(sta_rs::ct_state(key, "star_encrypt".spec_bytes()), reps[k].ciphertext.bytes@);
+        assert(pt == pl);
+        match auxs[k] {
+            Some(a) => {
+                C08_frame_roundtrip(m, frame(a));
+                assert(frame(a) =~= frame(a) + Seq::<u8>::empty());
+                C08_frame_roundtrip(a, Seq::<u8>::empty());
+            },
+            None => {
+                C08_frame_roundtrip(m, Seq::<u8>::empty());
+            },
+        }
+    }
+}
+
+// ---------------------------------------------------------------- C04: tags and keys are a function of exactly (m, e, t)
+/// same triple => same randomness, tag, key (determinism S1; no injectivity needed).  The terms
+/// do not mention the associated data at all.
+pub proof fn C04_same(m: Seq<u8>, e: Seq<u8>, t: u32, r1: sta_rs::Message, r2: sta_rs::Message, a1: Option<Seq<u8>>, a2: Option<Seq<u8>>)
+    requires
+        is_report_of(r1, m, e, t, a1, sta_rs::local_rnd(m, e, t)),
+        is_report_of(r2, m, e, t, a2, sta_rs::local_rnd(m, e, t)),
+    ensures
+        r1.tag@ == r2.tag@,
+        r1.share.0.J@ == r2.share.0.J@, r1.share.0.C@ == r2.share.0.C@, r1.share.0.D@ == r2.share.0.D@,
+        r1.share.0.A.threshold == r2.share.0.A.threshold,
+{
+}
+
+pub proof fn lemma_fold_ad_2(s: ST, a: Seq<u8>, b: Seq<u8>)
+    ensures sta_rs::fold_ad(s, seq![a, b]) == s_ad(s_ad(s, a), b)
+{
+    let l = seq![a, b];
+    assert(l.drop_last() =~= seq![a]);
+    assert(seq![a].drop_last() =~= Seq::<Seq<u8>>::empty());
+    assert(sta_rs::fold_ad(s, seq![a]) == s_ad(sta_rs::fold_ad(s, Seq::<Seq<u8>>::empty()), a));
+}
+pub proof fn lemma_fold_ad_1(s: ST, a: Seq<u8>)
+    ensures sta_rs::fold_ad(s, seq![a]) == s_ad(s, a)
+{
+    assert(seq![a].drop_last() =~= Seq::<Seq<u8>>::empty());
+    assert(sta_rs::fold_ad(s, seq![a]) == s_ad(sta_rs::fold_ad(s, seq![a].drop_last()), seq![a].last()));
+    assert(sta_rs::fold_ad(s, Seq::<Seq<u8>>::empty()) == s);
+}
+
+/// different triple => different randomness (S5: ideal-hash injectivity of the RNG output, and the
+/// free term algebra of framed operations).  Covers boundary shifts between measurement and
+/// epoch, empty components and thresholds differing in one bit: ANY difference.
+pub proof fn C04_diff_rnd(m1: Seq<u8>, e1: Seq<u8>, t1: u32, m2: Seq<u8>, e2: Seq<u8>, t2: u32)
+    requires sta_rs::local_rnd(m1, e1, t1) == sta_rs::local_rnd(m2, e2, t2)
+    ensures m1 == m2, e1 == e2, t1 == t2
+{
+    broadcast use group_s5;
+    let l = "star_sample_local".spec_bytes();
+    lemma_fold_ad_2(s_key(s_new(l), m1), e1, le32(t1));
+    lemma_fold_ad_2(s_key(s_new(l), m2), e2, le32(t2));
+    let s1 = s_ad(s_ad(s_key(s_new(l), m1), e1), le32(t1));
+    let s2 = s_ad(s_ad(s_key(s_new(l), m2), e2), le32(t2));
+    assert(adss::strobe_rng::rng_out(s1, 32) == adss::strobe_rng::rng_out(s2, 32));
+    assert(s_meta_ad(s1, le32(32)) == s_meta_ad(s2, le32(32)));
+    assert(s1 == s2);
+    lemma_le32(t1); lemma_le32(t2);
+}
+
+/// different client randomness => different tags
+pub proof fn C04_diff_tag(rnd1: Seq<u8>, rnd2: Seq<u8>)
+    requires sta_rs::rv(rnd1, 2) == sta_rs::rv(rnd2, 2)
+    ensures rnd1 == rnd2
+{
+    broadcast use group_s5;
+    let l = "star_derive_randoms".spec_bytes();
+    lemma_fold_ad_1(s_key(s_new(l), rnd1), seq![2u8]);
+    lemma_fold_ad_1(s_key(s_new(l), rnd2), seq![2u8]);
+    let s1 = s_ad(s_key(s_new(l), rnd1), seq![2u8]);
+    let s2 = s_ad(s_key(s_new(l), rnd2), seq![2u8]);
+    assert(adss::strobe_rng::rng_out(s1, 32) == adss::strobe_rng::rng_out(s2, 32));
+    assert(s_meta_ad(s1, le32(32)) == s_meta_ad(s2, le32(32)));
+}
+
+/// different (key seed, epoch) => different encryption keys (S5 incl. 128-bit prefix injectivity)
+pub proof fn C04_diff_key(r0a: Seq<u8>, ea: Seq<u8>, r0b: Seq<u8>, eb: Seq<u8>)
+    requires sta_rs::ske(r0a, ea) == sta_rs::ske(r0b, eb)
+    ensures r0a == r0b, ea == eb
+{
+    broadcast use {group_s5, ax_s5_prf_prefix};
+    let l = "star_derive_ske_key".spec_bytes();
+    lemma_fold_ad_1(s_key(s_new(l), r0a), ea);
+    lemma_fold_ad_1(s_key(s_new(l), r0b), eb);
+    let s1 = s_meta_ad(s_ad(s_key(s_new(l), r0a), ea), le32(32));
+    let s2 = s_meta_ad(s_ad(s_key(s_new(l), r0b), eb), le32(32));
+    assert(prf_out(s1, 32).subrange(0, 16) == prf_out(s2, 32).subrange(0, 16));
+    assert(s1 == s2);
+}
+
+/// C04, assembled: clients that differ in any one of (measurement, epoch, threshold) obtain
+/// different randomness, different tags and different keys
+pub proof fn C04_diff(m1: Seq<u8>, e1: Seq<u8>, t1: u32, m2: Seq<u8>, e2: Seq<u8>, t2: u32)
+    requires m1 != m2 || e1 != e2 || t1 != t2
+    ensures
+        sta_rs::local_rnd(m1, e1, t1) != sta_rs::local_rnd(m2, e2, t2),
+        sta_rs::rv(sta_rs::local_rnd(m1, e1, t1), 2) != sta_rs::rv(sta_rs::local_rnd(m2, e2, t2), 2),
+        sta_rs::ske(sta_rs::rv(sta_rs::local_rnd(m1, e1, t1), 0), e1) != sta_rs::ske(sta_rs::rv(sta_rs::local_rnd(m2, e2, t2), 0), e2),
+{
+    let d1 = sta_rs::local_rnd(m1, e1, t1);
+    let d2 = sta_rs::local_rnd(m2, e2, t2);
+    if d1 == d2 { C04_diff_rnd(m1, e1, t1, m2, e2, t2); }
+    if sta_rs::rv(d1, 2) == sta_rs::rv(d2, 2) { C04_diff_tag(d1, d2); }
+    if sta_rs::ske(sta_rs::rv(d1, 0), e1) == sta_rs::ske(sta_rs::rv(d2, 0), e2) {
+        C04_diff_key(sta_rs::rv(d1, 0), e1, sta_rs::rv(d2, 0), e2);
+        C04_diff_r0(d1, d2);
+    }
+}
+pub proof fn C04_diff_r0(rnd1: Seq<u8>, rnd2: Seq<u8>)
+    requires sta_rs::rv(rnd1, 0) == sta_rs::rv(rnd2, 0)
+    ensures rnd1 == rnd2
+{
+    broadcast use group_s5;
+    let l = "star_derive_randoms".spec_bytes();
+    lemma_fold_ad_1(s_key(s_new(l), rnd1), seq![0u8]);
+    lemma_fold_ad_1(s_key(s_new(l), rnd2), seq![0u8]);
+    let s1 = s_ad(s_key(s_new(l), rnd1), seq![0u8]);
+    let s2 = s_ad(s_key(s_new(l), rnd2), seq![0u8]);
+    assert(adss::strobe_rng::rng_out(s1, 32) == adss::strobe_rng::rng_out(s2, 32));
+    assert(s_meta_ad(s1, le32(32)) == s_meta_ad(s2, le32(32)));
+}
+
+// ---------------------------------------------------------------- C03: keystream reuse (REFUTATION, derived from the contracts)
+/// For two reports of the same (measurement, epoch, threshold, randomness) the ciphertext is
+/// produced from the SAME Strobe state (by `generate`'s contract the state depends on key and label
+/// only), so by S4 the XOR of the two ciphertexts equals the XOR of the two payloads on the first
+/// 166 bytes.  This is the negation of the third sentence of property C03.
+pub proof fn C03_reuse(m: Seq<u8>, e: Seq<u8>, t: u32, rnd: Seq<u8>, r1: sta_rs::Message, r2: sta_rs::Message,
+                       a1: Option<Seq<u8>>, a2: Option<Seq<u8>>, i: int)
+    requires
+        is_report_of(r1, m, e, t, a1, rnd), is_report_of(r2, m, e, t, a2, rnd),
+        0 <= i < sta_rs::payload(m, a1).len(), i < sta_rs::payload(m, a2).len(), i < 166,
+    ensures
+        r1.ciphertext.bytes@[i] ^ r2.ciphertext.bytes@[i] == sta_rs::payload(m, a1)[i] ^ sta_rs::payload(m, a2)[i],
+{
+    broadcast use ax_s4;
+    let s = sta_rs::ct_state(sta_rs::ske(sta_rs::rv(rnd, 0), e), "star_encrypt".spec_bytes());
+    let p1 = sta_rs::payload(m, a1);
+    let p2 = sta_rs::payload(m, a2);
+    let k = keystream(s)[i];
+    let x = p1[i]; let y = p2[i];
+    assert(enc_out(s, p1)[i] == x ^ k);
+    assert(enc_out(s, p2)[i] == y ^ k);
+    assert((x ^ k) ^ (y ^ k) == x ^ y) by (bit_vector);
+}
+
 // ---------------------------------------------------------------- vacuity guard
 /// must FAIL on every run: if the assumed theories were contradictory this would verify.  The
 /// driver treats "canary_must_fail_* verified" as a tooling error (exit 2).
 pub proof fn canary_must_fail_sta()
     ensures false
 {
-    broadcast use {group_iter_seq, group_strobe, group_field, group_s5, ax_fv_inj, ax_finv,
+    broadcast use {group_iter_seq, group_strobe, group_field, group_s5, ax_s5_prf_prefix, ax_s4, ax_fv_inj, ax_finv,
         adss::ax_det_strobe_rng, sta_rs::ax_fill_strobe_rng, adss::lemma_s_parts_ext};
 }
 
